@@ -1043,11 +1043,42 @@ class Interp:
             else:
                 kwargs[k.arg] = self.eval(k.value, frame)
         if f is builtins.super and not args:
-            cls = frame.lookup("__class__") if "__class__" in frame.locals else None
-            raise OutOfSubset("zero-argument super()")
+            return self._zero_arg_super(frame)
         if f is builtins.locals:
             return frame.locals
         return self.call(f, args, kwargs)
+
+    def _zero_arg_super(self, frame):
+        """super() inside a method: attribute lookup continues after the defining class in the instance's MRO."""
+        from . import models as _m
+        f = frame
+        while f is not None and (f.closure is None or getattr(f.closure, "real", None) is None or isinstance(f.closure.node, ast.Lambda)):
+            f = f.parent
+        real = getattr(f.closure, "real", None) if f is not None else None
+        cls = None
+        if real is not None and real.__closure__:
+            for name, cell in zip(real.__code__.co_freevars, real.__closure__):
+                if name == "__class__":
+                    cls = cell.cell_contents
+        args = f.closure.node.args if f is not None else None
+        first = (args.posonlyargs + args.args)[0].arg if args is not None and (args.posonlyargs + args.args) else None
+        if cls is None or first is None or first not in f.locals:
+            raise OutOfSubset("zero-argument super() outside a method with a __class__ cell")
+        obj = f.locals[first]
+        inst_cls = obj.cls if isinstance(obj, SObj) else (obj if isinstance(obj, type) else type(obj))
+        mro = list(inst_cls.__mro__)
+        if cls not in mro:
+            raise OutOfSubset("super(): instance is not of the defining class")
+        rest = mro[mro.index(cls) + 1:]
+        it = self
+
+        class SuperProxy(_m.ModelHost):
+            def getattr(self_, it_, name):
+                for c in rest:
+                    if name in vars(c):
+                        return _m.bind_descriptor(it, obj, vars(c)[name], name)
+                _m._raise(AttributeError(name))
+        return SuperProxy()
 
     def eval_slice(self, sl, frame):
         if isinstance(sl, ast.Slice):
